@@ -822,6 +822,60 @@ def r6(k: Kit) -> None:
 CALLBACK_PREFIXES = ('validate_', 'change_password', 'get_kbdint_challenge')
 
 
+def awaited_verdict(k: Kit, rule: str, fi, g, c: ast.Call, what: str,
+                    short: str) -> None:
+    """The value of call `c` (an application callback that may return an
+    awaitable) is bound to a name, tested with inspect.isawaitable and
+    awaited before the name is read anywhere else."""
+    rep = k.rep
+    nd = g.node_for(c)
+    st = nd.ast if nd is not None else None
+    var = None
+    if isinstance(st, ast.Assign) and st.value is c and \
+            isinstance(st.targets[0], ast.Name):
+        var = st.targets[0].id
+    elif isinstance(st, ast.AnnAssign) and st.value is c and \
+            isinstance(st.target, ast.Name):
+        var = st.target.id
+    if var is None:
+        rep.violation(rule, key(fi, f'{short} awaited'),
+                      f'the result of {what}() is '
+                      'used directly (returned, awaited or tested) without '
+                      'the isawaitable / await step on the result: for an '
+                      'awaitable result it is an un-awaited object, which '
+                      'is truthy', k.loc(fi, nd) if nd else
+                      fi.loc(fi.node))
+        return
+    tests = [a.id for a in g.nodes if a.kind == 'atom' and
+             is_call(a.ast, 'isawaitable') and a.ast.args and
+             dotted(a.ast.args[0]) == var]
+    awaits = [a.id for a in g.nodes if a.ast is not None and any(
+        isinstance(x, ast.Await) and var in names_read(x)
+        for x in ast.walk(a.ast))]
+    bad = None
+    for r in g.nodes:
+        if r.id == nd.id or r.id in tests or r.id in awaits or \
+                r.ast is None or var not in names_read(r.ast):
+            continue
+        # (1) no read before the awaitable test
+        if g.path(nd.id, r.id, blocked_nodes=tests) is not None:
+            bad = r
+        # (2) on the awaitable edge the first use is the await
+        for t in tests:
+            for b, lab in g.succ[t]:
+                if lab is True and (b == r.id or g.path(
+                        b, r.id, blocked_nodes=awaits) is not None) \
+                        and b not in awaits:
+                    bad = r
+    okt = bool(tests) and bool(awaits)
+    rep.check(bad is None and okt, rule,
+              key(fi, f'{short} awaited'),
+              f'`{var}` is awaited when awaitable before it is used',
+              f'`{var}` (the verdict of {what}) '
+              'is read on a path that skipped the isawaitable / '
+              'await step', k.loc(fi, bad if bad else nd))
+
+
 def r7(k: Kit) -> None:
     """Possibly-asynchronous application verdicts are awaited before use."""
     rep = k.rep
@@ -846,52 +900,8 @@ def r7(k: Kit) -> None:
         g = k.cfg(fi)
         for c in calls:
             n += 1
-            nd = g.node_for(c)
-            st = nd.ast if nd is not None else None
-            var = None
-            if isinstance(st, ast.Assign) and st.value is c and \
-                    isinstance(st.targets[0], ast.Name):
-                var = st.targets[0].id
-            elif isinstance(st, ast.AnnAssign) and st.value is c and \
-                    isinstance(st.target, ast.Name):
-                var = st.target.id
-            if var is None:
-                rep.violation('C05.R7', key(fi, f'{c.func.attr} awaited'),
-                              f'the result of self._owner.{c.func.attr}() is '
-                              'used directly (returned or tested) without '
-                              'the isawaitable / await step: for an `async '
-                              'def` callback it is a coroutine object, which '
-                              'is truthy', k.loc(fi, nd) if nd else
-                              fi.loc(fi.node))
-                continue
-            tests = [a.id for a in g.nodes if a.kind == 'atom' and
-                     is_call(a.ast, 'isawaitable') and a.ast.args and
-                     dotted(a.ast.args[0]) == var]
-            awaits = [a.id for a in g.nodes if a.ast is not None and any(
-                isinstance(x, ast.Await) and var in names_read(x)
-                for x in ast.walk(a.ast))]
-            bad = None
-            for r in g.nodes:
-                if r.id == nd.id or r.id in tests or r.id in awaits or \
-                        r.ast is None or var not in names_read(r.ast):
-                    continue
-                # (1) no read before the awaitable test
-                if g.path(nd.id, r.id, blocked_nodes=tests) is not None:
-                    bad = r
-                # (2) on the awaitable edge the first use is the await
-                for t in tests:
-                    for b, lab in g.succ[t]:
-                        if lab is True and (b == r.id or g.path(
-                                b, r.id, blocked_nodes=awaits) is not None) \
-                                and b not in awaits:
-                            bad = r
-            okt = bool(tests) and bool(awaits)
-            rep.check(bad is None and okt, 'C05.R7',
-                      key(fi, f'{c.func.attr} awaited'),
-                      f'`{var}` is awaited when awaitable before it is used',
-                      f'`{var}` (the verdict of self._owner.{c.func.attr}) '
-                      'is read on a path that skipped the isawaitable / '
-                      'await step', k.loc(fi, bad if bad else nd))
+            awaited_verdict(k, 'C05.R7', fi, g, c,
+                            f'self._owner.{c.func.attr}', c.func.attr)
     rep.floor('C05.R7', 'application verdict call sites', n, 8)
 
 
@@ -1032,6 +1042,91 @@ def r9(k: Kit) -> None:
               fi.loc(fi.node))
 
 
+def r10(k: Kit) -> None:
+    """Security-key touch is waived only if every source waives it."""
+    rep = k.rep
+    idx = k.idx
+    rep.rule('C05.R10', 'every set_touch_required(...) argument of the server '
+             'connection, evaluated over the values of the no-touch-required '
+             'key option and certificate option: for a certificate the touch '
+             'requirement is dropped only if both authorized_keys and the '
+             'certificate carry no-touch-required, for a plain key only if '
+             'its authorized_keys line does')
+    n = 0
+    for fi in idx.iter_funcs(['connection']):
+        if fi.cls is None or fi.cls.name != 'SSHServerConnection':
+            continue
+        for nd, c in k.calls_named(fi, 'set_touch_required'):
+            n += 1
+            is_cert = bool(k.stores_to(fi, 'self._cert_options'))
+            bad = None
+            for ko in (False, True):
+                for co in (False, True):
+                    def on_call(nm, args, env, ko=ko, co=co):
+                        if args and args[0] == 'no-touch-required':
+                            if nm == 'self.get_key_option':
+                                return ko
+                            if nm == 'self.get_certificate_option':
+                                return co
+                        return Obj('x')
+                    try:
+                        o = evaluate(idx, fi.module,
+                                     [ast.Return(value=c.args[0])], {}, {},
+                                     on_call)
+                    except NotEvaluable as exc:
+                        rep.error('C05.R10', key(fi, 'not-evaluable'),
+                                  str(exc))
+                        return
+                    want = not (ko and co) if is_cert else not ko
+                    if o.kind != 'return' or o.value is not want:
+                        bad = bad or (
+                            f'authorized_keys no-touch-required={ko}, '
+                            f'certificate no-touch-required={co}: touch '
+                            f'required = {o.value!r}, expected {want}')
+            rep.check(bad is None, 'C05.R10',
+                      key(fi, 'touch waived only by every source'),
+                      'four option combinations', f'{bad}: a security-key '
+                      'signature made without user presence is accepted '
+                      'although one side demands the touch',
+                      k.loc(fi, nd))
+    rep.floor('C05.R10', 'set_touch_required sites', n, 2)
+
+
+def r11(k: Kit) -> None:
+    """The client's stored password is spent only on a password prompt."""
+    rep = k.rep
+    rep.rule('C05.R11', 'client kbdint_challenge_received: '
+             'password_auth_requested() - which hands out and clears the '
+             'stored password - is called only on the True edge of a '
+             '`\'password\' in prompt` / `\'passcode\' in prompt` test: a '
+             'challenge that asks for something else is declined without '
+             'consuming the credential the password method still needs')
+    fi = k.func('connection.SSHClientConnection.kbdint_challenge_received')
+    g = k.cfg(fi)
+    sites = k.calls_named(fi, 'password_auth_requested', 'self')
+    rep.floor('C05.R11', 'stored password uses', len(sites), 1)
+
+    def asks(n: Node) -> Optional[bool]:
+        a = n.ast
+        if n.kind == 'atom' and isinstance(a, ast.Compare) and \
+                len(a.ops) == 1 and isinstance(a.ops[0], ast.In) and \
+                isinstance(a.left, ast.Constant) and \
+                a.left.value in ('password', 'passcode'):
+            return True
+        return None
+    for nd, c in sites:
+        w = g.guarded_by(nd.id, asks)
+        rep.check(w is None, 'C05.R11',
+                  key(fi, 'password spent only on a password prompt'),
+                  'the call is guarded by the prompt test',
+                  'the stored password is fetched (and cleared) before the '
+                  'prompt is known to ask for it: after a server\'s '
+                  'one-prompt non-password challenge the password method has '
+                  'nothing left to send and a client with a valid password '
+                  'is refused', k.loc(fi, nd),
+                  g.describe_path(w) if w else None)
+
+
 def run(idx, rep, tier):
     k = Kit(idx, rep)
     rep.assumptions += NOT_DECIDED
@@ -1044,3 +1139,5 @@ def run(idx, rep, tier):
     r7(k)
     r8(k)
     r9(k)
+    r10(k)
+    r11(k)
